@@ -14,6 +14,6 @@ TRUSTED_BASE = ["Kani 0.68 / CBMC 6.11"]
 def units():
     rec = [Unit(nm, P + nm, ["Layer::polygon_coverage_recur", "is_in_list", "(arbitrary-answer stubs) n_vertices_in_poly, has_intersection", "(contract stub) BMOCBuilderUnsafe::{new,push}"],
                 "polygon descent contract, depth difference %d, %d listed vertex cells, EVERY assignment of the geometric answers: vertex cells are kept (partial) whatever the predicates say; full only when all 4 vertices are in the polygon; partial/descend when some vertex is in or an edge intersects; dropped otherwise; pushes ordered" % (dl, nl),
-                timeout=900, mem_gb=8, level="B", bound="depth difference %d, %d vertex cells" % (dl, nl), extra=dict(no_native=True))
-           for (nm, dl, nl) in (("poly_recur_delta0_n1", 0, 1), ("poly_recur_delta1_n1", 1, 1), ("poly_recur_delta1_n2", 1, 2), ("poly_recur_delta2_n2", 2, 2), ("poly_recur_delta2_n0", 2, 0))]
+                timeout=1500, mem_gb=8, level="B", bound="depth difference %d, %d vertex cells" % (dl, nl), extra=dict(no_native=True))
+           for (nm, dl, nl) in (("poly_recur_delta0_n1", 0, 1), ("poly_recur_delta1_n1", 1, 1), ("poly_recur_delta1_n2", 1, 2), ("poly_recur_delta2_n1", 2, 1), ("poly_recur_delta2_n0", 2, 0))]
     return rec + [Unit("poly_is_in_list_%d" % n, P + "poly_is_in_list_%d" % n, ["is_in_list", "slice::binary_search"], "sorted list of %d vertex cells: is_in_list <=> a listed cell is a descendant of the queried cell" % n, timeout=600, level="B", bound="%d entries" % n) for n in range(5)]
